@@ -128,6 +128,8 @@ def refine_key(key, what, form):
 
 def run_shard(ctx):
     pl = plan(ctx.tier, ctx.seed)
+    if ctx.shard == 0:
+        api_history(ctx)
     for i in range(pl["n"]):
         if not ctx.mine(i):
             continue
@@ -184,8 +186,44 @@ def run_shard(ctx):
                 ctx.viol(f"fixture:{key}", f"[{os.path.relpath(path, '/repo')}] {what}", {"fixture": path, "klass": "fixture"})
 
 
+def api_history(ctx):
+    """render, add a translated question through add_child(), render again: the second document must be closed too."""
+    from .. import apiseq
+    for i in range(30):
+        rng = ctx.rng("multistep", i)
+        langs = rng.choice([["en", "fr"], ["English (en)", "Swahili (sw)", "x"]])
+        rows = [{"type": "text", "name": "q1", **{f"label::{L}": f"Q1 {L}" for L in langs}},
+                {"type": "begin group", "name": "g", **{f"label::{L}": f"G {L}" for L in langs[:1]}},
+                {"type": "integer", "name": "q2", "label": "plain"}, {"type": "end group"}]
+        if rng.random() < 0.5:
+            rows = [{k: v for k, v in r.items() if "::" not in k} | ({"label": "L"} if r["type"] != "end group" else {}) for r in rows]  # first render without any itext
+        o = drive.call_convert({"survey": rows})
+        if not o.ok:
+            continue
+        sv = o.result._survey
+        sv.to_xml(validate=False)
+        tgt = rng.choice([sv, next(e for e in sv.iter_descendants() if e.name == "g")])
+        newq = {"type": "integer", "name": f"age{i}", "label": {L: f"Age {L}" for L in langs}, "hint": {langs[0]: "h"},
+                "bind": {"constraint": ". > 0", "jr:constraintMsg": {L: f"msg {L}" for L in langs[-1:]}}}
+        tgt.add_child(apiseq.question(newq))
+        try:
+            x = sv.to_xml(validate=False)
+        except Exception as e:  # noqa: BLE001
+            ctx.viol(f"multistep:second-render-raised:{type(e).__name__}", str(e)[:300], {"klass": "api"})
+            continue
+        v, nrefs, ntr = invariants.c07_itext(xf.Parsed(x), None)
+        ctx.ctr("api_histories")
+        ctx.ctr("itext_refs_checked", nrefs)
+        ctx.case(sig=f"multistep|{len(langs)}|{tgt.name}|{ntr}")
+        for key, what in v:
+            ctx.viol(f"multistep:{key}", f"[render, add_child(translated question), render] {what}", {"klass": "api"})
+
+
 def replay(w):
     def chk(ctx, wit):
+        if wit.get("klass") == "api":
+            api_history(ctx)
+            return
         if wit.get("klass") == "fixture":
             o = drive.call_convert(wit["fixture"])
             dl = None
